@@ -395,8 +395,189 @@ func (s FactSet) Has(pat string) (string, bool) {
 				}
 			}
 		}
+		if k, ok := s.impliedOrder(alt); ok {
+			return k, true
+		}
 	}
 	return "", false
+}
+
+// splitTop splits "kind(a, b)" into kind, a, b at the top-level comma.
+func splitTop(pat string) (kind, a, b string, ok bool) {
+	i := strings.Index(pat, "(")
+	if i <= 0 || !strings.HasSuffix(pat, ")") {
+		return
+	}
+	kind = pat[:i]
+	body := pat[i+1 : len(pat)-1]
+	depth := 0
+	for j := 0; j < len(body); j++ {
+		switch body[j] {
+		case '(', '[', '{':
+			depth++
+		case ')', ']', '}':
+			depth--
+		case ',':
+			if depth == 0 && j+1 < len(body) && body[j+1] == ' ' {
+				return kind, body[:j], body[j+2:], true
+			}
+		}
+	}
+	return
+}
+
+func constIntText(t string) (int64, bool) {
+	if i := strings.Index(t, ":"); i >= 0 {
+		t = t[:i]
+	}
+	if t == "" || t[0] == '"' {
+		return 0, false
+	}
+	neg := false
+	if t[0] == '-' {
+		neg = true
+		t = t[1:]
+	}
+	var v int64
+	if t == "" {
+		return 0, false
+	}
+	for _, c := range t {
+		if c < '0' || c > '9' {
+			return 0, false
+		}
+		v = v*10 + int64(c-'0')
+		if v < 0 {
+			return 0, false
+		}
+	}
+	if neg {
+		v = -v
+	}
+	return v, true
+}
+
+// impliedOrder: an exact (glob-free) le / lt / ne pattern also holds when it
+// follows from an equality or a stronger order fact of the set:
+//   le(A,B) ⇐ eq(A,B) | lt(A,B);  ne(A,B) ⇐ lt(A,B) | lt(B,A);
+// and, when one side is an integer constant, from a fact that bounds the other
+// side by another constant (eq(1,X) ⇒ le(X,1), lt(0,X), ne(0,X), le(X,5) …).
+// Branch conditions that a rewrite of an if-chain into a switch (or an early
+// return) leaves unevaluated on a path are exactly of this kind.
+func (s FactSet) impliedOrder(pat string) (string, bool) {
+	if strings.Contains(pat, "*") {
+		return "", false
+	}
+	kind, a, b, ok := splitTop(pat)
+	if !ok || (kind != "le" && kind != "lt" && kind != "ne") {
+		return "", false
+	}
+	has := func(k string) (string, bool) {
+		if f, ok := s[k]; ok {
+			return f.Key(), true
+		}
+		return "", false
+	}
+	eq := func(x, y string) (string, bool) {
+		if k, ok := has("eq(" + x + ", " + y + ")"); ok {
+			return k, true
+		}
+		return has("eq(" + y + ", " + x + ")")
+	}
+	switch kind {
+	case "le":
+		if k, ok := eq(a, b); ok {
+			return k, true
+		}
+		if k, ok := has("lt(" + a + ", " + b + ")"); ok {
+			return k, true
+		}
+	case "ne":
+		if k, ok := has("lt(" + a + ", " + b + ")"); ok {
+			return k, true
+		}
+		if k, ok := has("lt(" + b + ", " + a + ")"); ok {
+			return k, true
+		}
+	}
+	// constant bounds: collect what the set knows about the non-constant side X as an interval
+	ca, aConst := constIntText(a)
+	cb, bConst := constIntText(b)
+	if aConst == bConst {
+		return "", false
+	}
+	x := a
+	if aConst {
+		x = b
+	}
+	lo, hi := int64(-1<<62), int64(1<<62)
+	why := ""
+	for k, f := range s {
+		fk, fa, fb, ok := splitTop(k)
+		if !ok || f.Kind != fk {
+			continue
+		}
+		va, aC := constIntText(fa)
+		vb, bC := constIntText(fb)
+		switch {
+		case fk == "eq" && aC && fb == x:
+			lo, hi, why = maxI(lo, va), minI(hi, va), k
+		case fk == "eq" && bC && fa == x:
+			lo, hi, why = maxI(lo, vb), minI(hi, vb), k
+		case fk == "le" && bC && fa == x: // x <= c
+			if vb < hi {
+				hi, why = vb, k
+			}
+		case fk == "le" && aC && fb == x: // c <= x
+			if va > lo {
+				lo, why = va, k
+			}
+		case fk == "lt" && bC && fa == x: // x < c
+			if vb-1 < hi {
+				hi, why = vb-1, k
+			}
+		case fk == "lt" && aC && fb == x: // c < x
+			if va+1 > lo {
+				lo, why = va+1, k
+			}
+		}
+	}
+	if why == "" {
+		return "", false
+	}
+	okb := false
+	switch {
+	case kind == "le" && bConst: // x <= cb
+		okb = hi <= cb
+	case kind == "le" && aConst: // ca <= x
+		okb = ca <= lo
+	case kind == "lt" && bConst: // x < cb
+		okb = hi < cb
+	case kind == "lt" && aConst: // ca < x
+		okb = ca < lo
+	case kind == "ne" && bConst:
+		okb = cb < lo || cb > hi
+	case kind == "ne" && aConst:
+		okb = ca < lo || ca > hi
+	}
+	if okb {
+		return why, true
+	}
+	return "", false
+}
+
+func maxI(a, b int64) int64 {
+	if a > b {
+		return a
+	}
+	return b
+}
+
+func minI(a, b int64) int64 {
+	if a < b {
+		return a
+	}
+	return b
 }
 
 // swapSym: for eq(a, b) / ne(a, b) patterns returns the pattern with the two
